@@ -183,23 +183,34 @@ func mathRad(L *LState) int {
 	return 1
 }
 
+// mathRand returns the random number generator of the state: every state has
+// its own, so that a seeded sequence does not depend on what other states in
+// the process draw or seed.
+func mathRand(L *LState) *rand.Rand {
+	if L.G.rand == nil {
+		L.G.rand = rand.New(rand.NewSource(rand.Int63()))
+	}
+	return L.G.rand
+}
+
 func mathRandom(L *LState) int {
+	r := mathRand(L)
 	switch L.GetTop() {
 	case 0:
-		L.Push(LNumber(rand.Float64()))
+		L.Push(LNumber(r.Float64()))
 	case 1:
 		n := L.CheckInt(1)
-		L.Push(LNumber(rand.Intn(n) + 1))
+		L.Push(LNumber(r.Intn(n) + 1))
 	default:
 		min := L.CheckInt(1)
 		max := L.CheckInt(2) + 1
-		L.Push(LNumber(rand.Intn(max-min) + min))
+		L.Push(LNumber(r.Intn(max-min) + min))
 	}
 	return 1
 }
 
 func mathRandomseed(L *LState) int {
-	rand.Seed(L.CheckInt64(1))
+	mathRand(L).Seed(L.CheckInt64(1))
 	return 0
 }
 
